@@ -90,7 +90,71 @@ claim("C20",
       "Trusted: rustc MIR; format literals recovered from macro call-site snippets. Not decided: file contents over all interleavings.",
       ST + "must-pass-through on MIR CFG, aggregate-constant inspection, who-may-call", "DESIGN.md §3 C20")
 
-for p in ("C01", "C04", "C06", "C07", "C08", "C13", "C14", "C15", "C19"):
-    na(p, "rules for this property are designed (DESIGN.md §3) but not yet implemented in this revision; not claimed until they run")
+claim("C01",
+      "Decides, for every body of the five shipped crates, that each panic-capable construct found in MIR (overflow / division / bounds "
+      "asserts, unwrap/expect/panic calls, precondition APIs such as indexing, Vec::remove, String::replace_range, step_by, "
+      "Duration::from_secs_f64, block_on — also when passed as function values) is generated by an external macro, discharged by a "
+      "dominating guard, covered by a reviewed (function, kind, count, reason) table entry, or reported; plus evaluator totality and "
+      "recursion guards shared with C07. A new unguarded site anywhere is reported. Necessary condition for `never panics`.",
+      "Trusted: rustc MIR of a debug-assertions build; code generated by peg/cached/clap/tokio/tracing/thiserror/async-trait/strum macros; "
+      "the one-line reasons in rules/c01_table.json (reviewed by reading the code; triage fuzzing of ~250k inputs found no panic at a "
+      "tabled site). Not decided: termination of loops (one tokenizer spin was found by triage and fixed), stack exhaustion, panics "
+      "inside dependencies called with valid arguments.",
+      ST + "complete construct inventory over MIR with dominating-guard discharge and a reviewed table", "DESIGN.md §3 C01")
+claim("C04",
+      "Decides the quoting-tag mechanism on all paths: tag maps (Unsplittable→Literal, Splittable→Pattern), the tag constructed by every "
+      "expand_word_piece arm against a reference table, make_unsplittable on everything leaving double-quote processing, restoration "
+      "of in_double_quotes on every path, split_fields touching only Splittable pieces, literal regex pieces escaped, and a taint rule: "
+      "no text derived from variable values / positional parameters / command-substitution output reaches a word or program parser "
+      "inside brush_core::expansion.",
+      "Trusted: rustc MIR; taint is not propagated through the long-lived &mut Shell / &mut WordExpander receivers. Not decided: "
+      "byte-exactness for every string / IFS / glob option / directory.",
+      ST + "match-arm table extraction, PAIR, backward taint over MIR def-use", "DESIGN.md §3 C04")
+claim("C06",
+      "Decides that in the ordered choice of the ${…} grammar no shorter operator literal can swallow a longer one (`%` vs `%%`, `:` vs "
+      "`:-`, …) and every listed operator is recognised; that the operator implementations contain no unreviewed panic-capable "
+      "construct (scoped C01 inventory); the unset-tolerance table is decided under C03.",
+      "Trusted: peg ordered-choice semantics; rustc MIR. Not decided: results equal bash; shortest/longest semantics of prefix/suffix removal.",
+      ST + "PEG source table analysis + scoped construct inventory", "DESIGN.md §3 C06")
+claim("C07",
+      "Decides evaluator totality (no trapping i64 operation; div/rem/pow guarded), equality of the precedence!{} table with the bash "
+      "reference (levels and associativity), the literal→AST-variant and AST-variant→operation tables, structural short-circuit of && || "
+      "?:, right-hand-side-first assignment, and the dereference depth guard.",
+      "Trusted: rustc MIR; peg precedence!{} semantics; the reference table (bash manual). Not decided: literal values, printed results.",
+      ST + "MIR operation inventory + grammar table comparison + control dependence", "DESIGN.md §3 C07")
+claim("C08",
+      "Decides that compiled patterns anchor the whole string (flag group has `s` and not `m`; whole-string matchers pass both anchors; "
+      "^/$ emitted under their flags), that the literal-escaping tables contain every regex metacharacter (and the parser-side table is a "
+      "superset), and that pathname expansion sorts per directory and applies the dot-file policy.",
+      "Trusted: rustc MIR; fancy_regex flag semantics; format literals recovered from call-site snippets. Not decided: the pattern→regex "
+      "translation for all patterns, collation order.",
+      ST + "constant/flag inspection, SwitchInt character-table extraction, must-pass-through", "DESIGN.md §3 C08")
+claim("C13",
+      "Decides that the quoting character tables cover the reader's word-breaking characters (each listed with its reason) including a "
+      "leading `#`/`~`, that each quoting style escapes what it cannot hold, and that every Display-formatted argument of the re-readable "
+      "printers that derives from a user value passes through the quoting module (or the complete single-quote replace idiom).",
+      "Trusted: rustc MIR; char::is_ascii_control semantics. Known finding: trap -p prints the handler raw (the suite pins it as "
+      "known_failure). Not decided: the round trip itself for all strings; bash as the reader.",
+      ST + "SwitchInt character-table extraction + backward flow from format arguments", "DESIGN.md §3 C13")
+claim("C14",
+      "Decides that for every operator-like AST enum the literal written by Display is one the grammar maps to the same variant "
+      "(program, arithmetic and test grammars; 84 rows), that the [[ ]] and test predicate tables agree, that every Display loop "
+      "reachable from FunctionDefinition separates its items, and that export / declare -f print through the same Display impl.",
+      "Trusted: rustc MIR; peg source inspection. Not decided: parse∘print fixed point, keyword skeletons of struct nodes.",
+      ST + "printer-table (MIR match arms) vs parser-table (peg source) comparison", "DESIGN.md §3 C14")
+claim("C15",
+      "Decides that every parameter of each of the six memoised functions flows into the key of cache_get and cache_set, that workspace "
+      "key component types derive Hash/PartialEq/Eq, and that the memoised computations (966 reachable bodies) read no mutable static, "
+      "thread-local or ambient-state API.",
+      "Trusted: rustc MIR; cached::SizedCache key semantics. Not decided: equality of outputs across delivery modes, $LINENO, the "
+      "complete/incomplete classification.",
+      ST + "backward taint to memo keys, derive inspection, call-graph purity closure", "DESIGN.md §3 C15")
+claim("C19",
+      "Decides that the highlighter contains no unchecked slicing/indexing/unwrap, slices only through str::get, and that append_span — "
+      "the only place spans are pushed — starts every span at (a maximum with) current_byte_index with both bounds clamped to character "
+      "boundaries and advances the cursor on every path: ordered / contiguous / non-overlapping / char-aligned hold structurally.",
+      "Trusted: rustc MIR. Not decided: that the final cursor equals the line length for every line.",
+      ST + "scoped construct inventory + value provenance of span bounds", "DESIGN.md §3 C19")
+
 na("C05", "argument-list equality with bash over words x IFS x directory trees is a runtime quantity; no structural clause that is a "
           "necessary condition and stable under behaviour-preserving rewrites was found beyond those decided under C04 (DESIGN.md §3 C05)")
